@@ -1164,7 +1164,15 @@ func (c *fctx) expr(e ast.Expr) ex {
 			c.opaque = append(c.opaque, fmt.Sprintf("(%s : %s)", name, c.t.valType(c.typeOf(e))))
 			c.opaqueNodes[e] = name
 		}
-		return ex{code: pre + "«call:(\"slice\", [" + c.traceArg(se) + "])»" + name}
+		arg := ""
+		if c.t.symbolic {
+			// traceArg leaves slice expressions to expr in symbolic mode, which would come
+			// back here for ever: the source text stands for the re-sliced value
+			arg = fmt.Sprintf("%q", c.show(se))
+		} else {
+			arg = c.traceArg(se)
+		}
+		return ex{code: pre + "«call:(\"slice\", [" + arg + "])»" + name}
 	}
 	if sx, ok := e.(*ast.SliceExpr); ok && !sx.Slice3 {
 		if _, isSl := c.typeOf(sx.X).Underlying().(*types.Slice); isSl && strings.HasPrefix(c.t.leanType(c.typeOf(sx.X)), "(List") {
